@@ -1,0 +1,295 @@
+//go:build verif
+
+package dict
+
+/*
+Enumeration-order seam for deterministic simulation (build tag verif only).
+
+Go map iteration order is the only run-to-run nondeterminism of programs built on this package.
+With the tag on, and only when a schedule is installed (env VERIF_SIM names a scenario file, or
+VerifInstall is called in-process), Keys/Values/KVs put what the real loop produced into a canonical
+order (sorted keys) and then apply the permutation the schedule prescribes for this enumeration point.
+Every point with two or more entries is logged. Without a schedule nothing changes.
+*/
+
+import (
+	"encoding/json"
+	"fmt"
+	"os"
+	"runtime"
+	"sort"
+	"strings"
+
+	"github.com/karino2/folang/pkg/frt"
+)
+
+// VerifNow is simulated time (set by the instrumented program); used only to stamp log lines.
+var VerifNow func() int64
+
+// VerifSched says how enumeration points are permuted.
+type VerifSched struct {
+	Mode     string           `json:"mode"`      // "identity" (default), "seeded", "tape"
+	Seed     uint64           `json:"seed"`      // seeded: permutation of point k is a function of (Seed, k)
+	Style    string           `json:"style"`     // seeded: shuffle, reverse, rotate, swap, lastfirst, mixed
+	OnlySite string           `json:"only_site"` // seeded: permute only points whose call site contains this text
+	From     int              `json:"from"`      // seeded: permute only points with From <= k
+	To       int              `json:"to"`        // seeded: ... and k < To (0: no upper limit)
+	Tape     map[string][]int `json:"tape"`      // tape: point index -> permutation, identity elsewhere
+}
+
+// VerifEnumEvent describes one enumeration point.
+type VerifEnumEvent struct {
+	T    int64  `json:"t"`
+	Op   string `json:"op"`
+	K    int    `json:"k"`
+	Fn   string `json:"fn"`
+	Site string `json:"site"`
+	N    int    `json:"n"`
+	Perm []int  `json:"perm"`
+	Note string `json:"note,omitempty"`
+}
+
+var verifSt struct {
+	loaded bool
+	on     bool
+	sched  VerifSched
+	k      int
+	logf   *os.File
+	sink   func(VerifEnumEvent)
+}
+
+// VerifInstall installs (or with nil removes) a schedule in-process and resets the point counter.
+func VerifInstall(s *VerifSched, sink func(VerifEnumEvent)) {
+	verifSt.loaded = true
+	verifSt.k = 0
+	verifSt.sink = sink
+	verifSt.logf = nil
+	if s == nil {
+		verifSt.on = false
+		return
+	}
+	verifSt.on = true
+	verifSt.sched = *s
+}
+
+func verifLoad() {
+	verifSt.loaded = true
+	path := os.Getenv("VERIF_SIM")
+	if path == "" {
+		return
+	}
+	raw, err := os.ReadFile(path)
+	if err != nil {
+		fmt.Fprintf(os.Stderr, "verif(dict): cannot read scenario %s: %v\n", path, err)
+		os.Exit(98)
+	}
+	var sc struct {
+		Enum VerifSched `json:"enum"`
+		Log  string     `json:"log"`
+	}
+	if err := json.Unmarshal(raw, &sc); err != nil {
+		fmt.Fprintf(os.Stderr, "verif(dict): bad scenario %s: %v\n", path, err)
+		os.Exit(98)
+	}
+	verifSt.sched = sc.Enum
+	verifSt.on = true
+	if sc.Log != "" {
+		f, err := os.OpenFile(sc.Log, os.O_WRONLY|os.O_APPEND|os.O_CREATE, 0644)
+		if err != nil {
+			fmt.Fprintf(os.Stderr, "verif(dict): cannot open log %s: %v\n", sc.Log, err)
+			os.Exit(98)
+		}
+		verifSt.logf = f
+	}
+}
+
+func verifActive() bool {
+	if !verifSt.loaded {
+		verifLoad()
+	}
+	return verifSt.on
+}
+
+func verifKeyString[K comparable](k K) string {
+	if s, ok := any(k).(string); ok {
+		return s
+	}
+	return fmt.Sprintf("%#v", k)
+}
+
+func verifSite() string {
+	var pcs [16]uintptr
+	n := runtime.Callers(2, pcs[:])
+	frames := runtime.CallersFrames(pcs[:n])
+	for {
+		fr, more := frames.Next()
+		name := fr.Function
+		if name != "" && !strings.Contains(name, "folang/pkg/dict.") {
+			if i := strings.LastIndex(name, "/"); i >= 0 {
+				name = name[i+1:]
+			}
+			if i := strings.Index(name, "["); i >= 0 {
+				name = name[:i]
+			}
+			return name
+		}
+		if !more {
+			break
+		}
+	}
+	return "?"
+}
+
+type verifRng struct{ s uint64 }
+
+func (r *verifRng) next() uint64 {
+	r.s += 0x9e3779b97f4a7c15
+	z := r.s
+	z = (z ^ (z >> 30)) * 0xbf58476d1ce4e5b9
+	z = (z ^ (z >> 27)) * 0x94d049bb133111eb
+	return z ^ (z >> 31)
+}
+
+func (r *verifRng) intn(n int) int { return int(r.next() % uint64(n)) }
+
+func verifIdentity(n int) []int {
+	p := make([]int, n)
+	for i := range p {
+		p[i] = i
+	}
+	return p
+}
+
+func verifStylePerm(style string, r *verifRng, n int) []int {
+	p := verifIdentity(n)
+	switch style {
+	case "mixed":
+		styles := []string{"shuffle", "reverse", "rotate", "swap", "lastfirst", "identity"}
+		return verifStylePerm(styles[r.intn(len(styles))], r, n)
+	case "shuffle":
+		for i := n - 1; i > 0; i-- {
+			j := r.intn(i + 1)
+			p[i], p[j] = p[j], p[i]
+		}
+	case "reverse":
+		for i := range p {
+			p[i] = n - 1 - i
+		}
+	case "rotate":
+		rot := 1 + r.intn(n-1)
+		for i := range p {
+			p[i] = (i + rot) % n
+		}
+	case "swap":
+		j := r.intn(n - 1)
+		p[j], p[j+1] = p[j+1], p[j]
+	case "lastfirst":
+		p[0] = n - 1
+		for i := 1; i < n; i++ {
+			p[i] = i - 1
+		}
+	}
+	return p
+}
+
+func verifIsPerm(p []int, n int) bool {
+	if len(p) != n {
+		return false
+	}
+	seen := make([]bool, n)
+	for _, x := range p {
+		if x < 0 || x >= n || seen[x] {
+			return false
+		}
+		seen[x] = true
+	}
+	return true
+}
+
+// verifPoint decides and records the permutation of the next enumeration point (n >= 2).
+func verifPoint(fn string, n int) []int {
+	k := verifSt.k
+	verifSt.k++
+	site := verifSite()
+	s := &verifSt.sched
+	perm := verifIdentity(n)
+	note := ""
+	switch s.Mode {
+	case "seeded":
+		inWindow := k >= s.From && (s.To == 0 || k < s.To)
+		if inWindow && (s.OnlySite == "" || strings.Contains(site, s.OnlySite)) {
+			r := &verifRng{s: s.Seed ^ (uint64(k)+1)*0xd1342543de82ef95}
+			r.next()
+			perm = verifStylePerm(s.Style, r, n)
+		}
+	case "tape":
+		if p, ok := s.Tape[fmt.Sprint(k)]; ok {
+			if verifIsPerm(p, n) {
+				perm = append([]int(nil), p...)
+			} else {
+				note = "tape entry does not fit this point; identity used"
+			}
+		}
+	}
+	ev := VerifEnumEvent{Op: "enum", K: k, Fn: fn, Site: site, N: n, Perm: perm, Note: note}
+	if VerifNow != nil {
+		ev.T = VerifNow()
+	}
+	if verifSt.sink != nil {
+		verifSt.sink(ev)
+	}
+	if verifSt.logf != nil {
+		line, _ := json.Marshal(ev)
+		verifSt.logf.Write(append(line, '\n'))
+	}
+	return perm
+}
+
+func verifOrderKeys[K comparable, V any](d Dict[K, V], res []K) []K {
+	if len(res) < 2 || !verifActive() {
+		return res
+	}
+	sort.SliceStable(res, func(i, j int) bool { return verifKeyString(res[i]) < verifKeyString(res[j]) })
+	perm := verifPoint("Keys", len(res))
+	out := make([]K, len(res))
+	for i, p := range perm {
+		out[i] = res[p]
+	}
+	return out
+}
+
+func verifOrderKVs[K comparable, V any](d Dict[K, V], res []frt.Tuple2[K, V]) []frt.Tuple2[K, V] {
+	if len(res) < 2 || !verifActive() {
+		return res
+	}
+	sort.SliceStable(res, func(i, j int) bool { return verifKeyString(res[i].E0) < verifKeyString(res[j].E0) })
+	perm := verifPoint("KVs", len(res))
+	out := make([]frt.Tuple2[K, V], len(res))
+	for i, p := range perm {
+		out[i] = res[p]
+	}
+	return out
+}
+
+// Values cannot be sorted by key after the fact, so the result is rebuilt from the map in scheduled key
+// order. If the real loop produced another number of values than the map has entries, its result is
+// handed back untouched so the damage stays visible.
+func verifOrderValues[K comparable, V any](d Dict[K, V], res []V) []V {
+	if len(res) < 2 || !verifActive() {
+		return res
+	}
+	if len(res) != len(d.Fdict) {
+		return res
+	}
+	keys := make([]K, 0, len(d.Fdict))
+	for k := range d.Fdict {
+		keys = append(keys, k)
+	}
+	sort.SliceStable(keys, func(i, j int) bool { return verifKeyString(keys[i]) < verifKeyString(keys[j]) })
+	perm := verifPoint("Values", len(keys))
+	out := make([]V, len(keys))
+	for i, p := range perm {
+		out[i] = d.Fdict[keys[p]]
+	}
+	return out
+}
